@@ -113,10 +113,9 @@ def main(ctx):
             ('orRevoked', dict(Focus='"sets"',
                                LineKeys='{"K1", "K2", "CA1"}')),
             ('skipRevokedKey', dict(LineKeys='{"K1", "CA1"}')),
-            ('princIgnored', dict(Focus='"cert"')),
-            ('vbInclusive', dict(Focus='"cert"'))]
+            ('princIgnored', dict(Focus='"cert"'))]
     if not quick:
-        sens += [('fbIgnoresCA', {}), ('holdsIgnored', dict(MaxLines=1)),
+        sens += [('fbIgnoresCA', {}), ('vbInclusive', dict(Focus='"cert"')), ('holdsIgnored', dict(MaxLines=1)),
                  ('trustAllSkipsSig', dict(Focus='"trustall"')),
                  ('cbCAForRevoked', dict(Focus='"callbacks"', MaxLines=1)),
                  ('certSigIgnored', dict(Focus='"cert"'))]
@@ -124,9 +123,10 @@ def main(ctx):
         tlc_run(ctx, f'sensitivity: decision variant {mu}', Mu=f'"{mu}"',
                 expect='DecisionMatchesRule',
                 invariants=['DecisionMatchesRule'], properties=(), **kw)
-    tlc_run(ctx, 'witness: acceptance through the plain-name fall-back',
-            expect='NeverFallbackAccept', invariants=['NeverFallbackAccept'],
-            properties=())
+    if not quick:
+        tlc_run(ctx, 'witness: acceptance through the plain-name fall-back',
+                expect='NeverFallbackAccept', invariants=['NeverFallbackAccept'],
+                properties=())
 
     # ---- 2. the decision table, materialised ------------------------------
     tables = [
